@@ -3,7 +3,7 @@
 SPEC = {
     "pkg": "c10",
     "tests": [
-        {"name": "TestHTTPSamples", "quick": 320, "thorough": 24000, "shards_quick": 8, "shards_thorough": 16, "timeout": 3000},
+        {"name": "TestHTTPSamples", "quick": 480, "thorough": 24000, "shards_quick": 8, "shards_thorough": 16, "timeout": 3000},
         {"name": "TestGRPCCodes", "quick": 48, "thorough": 3200, "shards_quick": 4, "shards_thorough": 16, "timeout": 3000},
         {"name": "TestGRPCJSONTags", "quick": 96, "thorough": 3200, "shards_quick": 4, "shards_thorough": 16, "timeout": 3000},
         {"name": "TestGRPCUntaggedWitness", "quick": 1, "thorough": 1, "shards": 1, "timeout": 120},
@@ -34,20 +34,36 @@ SPEC = {
              "sample per executed step, tagged <scenario>.<step name>, completed steps with the status received, the failed step "
              "reported as failed, nothing after it; non-trivial = a step failed by a postprocessor. TestIDsUnique: a real uri provider (streaming or preloaded) with limit 2000 / 20000 / 60000 is drained by 2-16 goroutines "
              "calling Acquire/Release as fast as they can (where the ids are issued); every id must occur once; non-trivial = >= 4 "
-             "consumers and >= 20000 ammo. TestHTTPSamples: rapid-generated ammo (uri / http-json / raw; 1-8 entries with 0-5 path elements, tagged or not) x scripted "
+             "consumers and >= 20000 ammo. TestHTTPSamples: rapid-generated ammo (uri / uripost / raw / http-json written one object per line, as pretty-printed objects, "
+             "or as one JSON array - the six layouts equally likely; 1-8 entries with 0-5 path elements, tagged or not) x provider streaming or "
+             "with preload x bounds {passes 1-3, a limit of 1..3n with the default unlimited passes, both; at most 24 shots} x scripted "
              "target answers (any status 200-599; connection reset, response-header timeout, body shorter than Content-Length; target "
-             "refusing connections) x auto-tag {enabled, uri-elements 1-3, no-tag-only} x 1-8 instances x 1-2 passes; real http gun, "
-             "real phout aggregator with ids, pool built by config.DecodeAndValidate; the multiset of (tag, proto code, net code == 0) "
-             "parsed from the phout file is compared with the model and ids must be pairwise distinct. TestGRPCCodes: every case "
+             "refusing connections) x auto-tag {enabled, uri-elements 1-3, no-tag-only} x 1-8 instances; real http gun, real provider, real engine "
+             "instances (which Release every ammo after its shot), real phout aggregator with ids, pool built by config.DecodeAndValidate; "
+             "the k-th ammo is entry k mod n, so the multiset of (tag, proto code, net code == 0) parsed from the phout file is compared with "
+             "the model over all min(limit, passes x n) shots - an entry shot on a later pass must carry its tag and reach the target under "
+             "its own path again (the target answers by path; anything else is a 599) - and ids must be pairwise distinct. Classes "
+             "layout_<layout>_{stream,preload}, reshot_<layout>_{stream,preload} (more shots than entries: entries are shot again after "
+             "their ammo was released), reshot_by_passes / reshot_by_limit_with_unlimited_passes, third_pass_entered. TestGRPCCodes: every case "
              "enumerates all gRPC status codes 0..16 (plus generated out-of-range values) returned by a recording TargetService; the "
              "sample's proto code must equal the table in docs/eng/grpc-generator.md as transcribed into the harness. Non-trivial = a "
              "non-2xx status, a failure kind, auto-tag on, or >= 2 instances (HTTP); every gRPC case; distinct = hash of the case."),
+    "required_classes": ['TestHTTPSamples/reshot_tagged_uri_stream', 'TestHTTPSamples/reshot_tagged_uri_preload',
+                         'TestHTTPSamples/reshot_tagged_uripost_stream', 'TestHTTPSamples/reshot_tagged_uripost_preload',
+                         'TestHTTPSamples/reshot_tagged_raw_stream', 'TestHTTPSamples/reshot_tagged_raw_preload',
+                         'TestHTTPSamples/reshot_tagged_jsonline_lines_stream', 'TestHTTPSamples/reshot_tagged_jsonline_lines_preload',
+                         'TestHTTPSamples/reshot_tagged_jsonline_pretty_stream', 'TestHTTPSamples/reshot_tagged_jsonline_pretty_preload',
+                         'TestHTTPSamples/reshot_tagged_jsonline_array_stream', 'TestHTTPSamples/reshot_tagged_jsonline_array_preload',
+                         'TestHTTPSamples/reshot_by_limit_with_unlimited_passes_jsonline_array_stream'],
     "floors": {"TestHTTPSamples/status_3xx": 0.1, "TestHTTPSamples/status_4xx": 0.1, "TestHTTPSamples/status_5xx": 0.1,
                "TestHTTPSamples/fail_reset": 0.1, "TestHTTPSamples/fail_timeout": 0.1, "TestHTTPSamples/fail_short_body": 0.1,
                "TestHTTPSamples/fail_refused": 0.04, "TestHTTPSamples/auto_tag": 0.24, "TestHTTPSamples/auto_tag_appended": 0.1,
                "TestHTTPSamples/instances_ge_2": 0.5, "TestHTTPSamples/uri_without_path": 0.4,
                "TestHTTPSamples/auto_tag_of_uri_without_path_untagged": 0.15, "TestHTTPSamples/uri_without_path_abs": 0.1,
                "TestHTTPSamples/uri_without_path_query": 0.1, "TestHTTPSamples/uri_without_path_abs_query": 0.1,
+               "TestHTTPSamples/preload": 0.27, "TestHTTPSamples/reshot": 0.3, "TestHTTPSamples/reshot_by_passes": 0.2,
+               "TestHTTPSamples/reshot_by_limit_with_unlimited_passes": 0.1, "TestHTTPSamples/third_pass_entered": 0.12,
+               "TestHTTPSamples/reshot_uri_stream": 0.01, "TestHTTPSamples/reshot_uri_preload": 0.008, "TestHTTPSamples/reshot_uripost_stream": 0.01, "TestHTTPSamples/reshot_uripost_preload": 0.008, "TestHTTPSamples/reshot_raw_stream": 0.01, "TestHTTPSamples/reshot_raw_preload": 0.008, "TestHTTPSamples/reshot_jsonline_lines_stream": 0.01, "TestHTTPSamples/reshot_jsonline_lines_preload": 0.008, "TestHTTPSamples/reshot_jsonline_pretty_stream": 0.01, "TestHTTPSamples/reshot_jsonline_pretty_preload": 0.008, "TestHTTPSamples/reshot_jsonline_array_stream": 0.01, "TestHTTPSamples/reshot_jsonline_array_preload": 0.008,
                "TestGRPCScenarioTags/one_instance_reruns_a_call_in_another_scenario": 0.24,
                "TestGRPCScenarioTags/call_shared_by_invoked_scenarios": 0.45, "TestGRPCScenarioTags/three_or_more_scenarios_invoked": 0.3,
                "TestGRPCScenarioTags/instances_ge_2_with_shared_call": 0.15, "TestGRPCScenarioTags/step_with_non_ok_status": 0.2,
@@ -64,7 +80,9 @@ SPEC = {
         "technique": "model-based property testing (rapid) through the real guns and the real phout aggregator against scripted recording targets; documentation-transcribed table oracle for gRPC codes",
         "text": ("Samples are read where users read them (phout lines). HTTP: exactly one sample per fired request; proto code = status "
                  "received else 0; net code 0 iff a response was completely received; tag = ammo tag / auto-tag of the first n path "
-                 "elements (appended with '|' when the ammo is tagged and no-tag-only is off) / __EMPTY__ (also when auto-tag is on and the URI has no path to take elements from); ids unique across instances. "
+                 "elements (appended with '|' when the ammo is tagged and no-tag-only is off) / __EMPTY__ (also when auto-tag is on and the URI has no path to take elements from); ids unique across instances; "
+                 "all of it for every ammo layout (uri, uripost, raw, http/json as lines / pretty objects / one array), streamed or preloaded, also for entries shot "
+                 "again on a second and third pass (by `passes` or by a limit above the file's length) after the engine released their ammo. "
                  "gRPC: proto code equals the documented mapping for all 17 defined codes and 500 for anything else; the tag is the one written "
                  "on the entry's own line, __EMPTY__ for a line without one, also once the provider recycles its ammo objects; a "
                  "scenario step that was answered and then rejected by its assert/response postprocessor keeps tag <scenario>.<call tag> "
